@@ -19,6 +19,24 @@ CLAIMED = {
    text="Theorems about the Gallina model of the constructor (every particle once, in the leaf of its index); extracted model vs real constructor; stored data compared bit for bit with the input, initial rhs/cells checked zero.",
    note="Trusted: as C07. The floating-point position->coordinate step is modelled separately (see DESIGN.md C06); dyadic boxes here.",
    technique="Coq proof + extracted-model differential test + bit-exact data oracle"),
+ "C01": dict(level="proof", ref="DESIGN.md §6 C01",
+   text="Executable Gallina model of the sequential executor at group level (every cursor loop, binary search and batching step) with theorems that it refines a per-cell specification and that the specification is exactly-once; the extracted model is run against the real TbfAlgorithm (TraceKernel: exactly additive uint64 kernel recording every call) on the tree the implementation built; values and traces are re-checked by brute-force oracles.",
+   note="Trusted: Coq kernel, extraction, OCaml driver, harness h_algo + trace_kernel.hpp, python generators/oracles. std::sort / lower_bound / upper_bound modelled by their ISO specifications.",
+   technique="Coq refinement proof (group-level executor -> per-cell spec -> exactly once) + extracted-model trace differential + value oracle"),
+ "C02": dict(level="proof", ref="DESIGN.md §6 C02",
+   text="Every call of the model's trace is shown geometrically consistent (theorems on the index algebra + refinement); the real executor's calls are recorded as received (level, codes, header coordinates, particle indices, cell identity tags) and re-validated from coordinates alone.",
+   note="As C01. Sequential executor with Morton / periodic Morton orderings here; task executors share the wrappers (C03).",
+   technique="Coq proof + extracted-model trace differential + per-call geometric oracle"),
+ "C08": dict(level="proof", ref="DESIGN.md §6 C08",
+   text="Corollary of the refinement theorem: the multiset of elementary interactions does not mention block size or grouping mode. Implementation side: the same input is executed under every block size and both modes; elementary multisets, particle results and cell expansions must be pairwise identical and equal to the model's.",
+   note="As C01.", technique="Coq proof (grouping-independent spec) + family differential test"),
+ "C12": dict(level="proof", ref="DESIGN.md §6 C12",
+   text="Model of execute(flags) with the if-chain of the source; staged histories are run on implementation and model; per-call state digests decide the write-set clauses; levels of all calls are checked against the upper working level.",
+   note="As C01.", technique="Coq proof + history differential test + write-set oracle"),
+ "C14": dict(level="proof", ref="DESIGN.md §6 C14",
+   text="Theorems about the byte-offset model of TbfMemoryBlock and its four sub-block kinds (accessor in block, blocks disjoint and aligned, trailer inside the allocation in every state reachable by resets, trailer round trip); the extracted model is compared with the real blocks on reset/move/copy+view sequences and every group buffer of real trees is copied and re-viewed.",
+   note="Trusted: Coq kernel, extraction, OCaml driver, harnesses h_mem / h_tree, python oracle. Memory is modelled as 8-byte trailer words addressed by byte offset; element payload bytes are compared by the harness (digest), not modelled.",
+   technique="Coq proof of layout arithmetic + extracted-model differential test + copy/view oracle"),
 }
 NOT_YET = {}
 ALL = ["C%02d" % i for i in range(1, 21)]
